@@ -226,13 +226,13 @@ def run_main_scenarios(spec, scratch):
             elif sc == 'interrupt':
                 worst = 0
                 text = []
-                for delay in ('installed', 0.3, 0.8):
-                    out, rc, so = run(['-s', '64', '-T', '400', '-N', '1000', '-n', '50'], f'int_{delay if isinstance(delay, str) else int(delay * 10)}', interrupt_after=delay)
+                for delay, nout in (('installed', 50), (0.3, 50), (0.8, 50), (0.5, 0)):      # outstep 0: no regular output, only the final record
+                    out, rc, so = run(['-s', '64', '-T', '400', '-N', '1000', '-n', str(nout)], f'int_{delay if isinstance(delay, str) else int(delay * 10)}_{nout}', interrupt_after=delay)
                     said = 'Aborted.' in so
-                    crc, cso = check(out, 1000, 50, 400) if os.path.exists(out) else (1, 'no results file')
+                    crc, cso = check(out, 1000, nout, 400) if os.path.exists(out) else (1, 'no results file')
                     ok = rc == 0 and said and crc == 0
                     worst |= 0 if ok else 1
-                    text.append(f'SIGINT after {delay}{"" if isinstance(delay, str) else "s"}: exit {rc}, reported aborted: {said}, file: {cso.strip()[-200:]}')
+                    text.append(f'SIGINT after {delay}{"" if isinstance(delay, str) else "s"} (outstep {nout}): exit {rc}, reported aborted: {said}, file: {cso.strip()[-200:]}')
                 outs.append({'args': [sc], 'exit': worst, 'stdout': '\n'.join(text)})
         except Exception as e:
             outs.append({'args': [sc], 'exit': 'error', 'stdout': f'{type(e).__name__}: {e}'})
